@@ -12,6 +12,7 @@ always observed with FlowIRConcrete.get_component_configuration(id, raw=False, i
 """
 import copy
 import os
+import re
 
 from verif.core.runner import HarnessError
 from verif.gen import c04_docs as G
@@ -26,14 +27,16 @@ RULE = (
     'component override[P], override[Q]} (the other stage defines it exactly where stage 0 does not; thorough also '
     'without that); opt-subsets = each of 5 options (int numberThreads, string arguments, nested lsf.queue, list '
     'shutdownOn, numeric walltime) in every subset of the 9 blueprint/component/override layers x value shape '
-    '{literal, %(ref)s to a defined variable, refs defined only for component layers, only for blueprint layers}; '
+    '{literal, %(ref)s to a defined variable, refs defined only for component layers, only for blueprint layers, '
+    'refs whose target the component redefines}; '
     'chain = v0->v1->v2 with every triple of defining scopes (v2 also undefined); rebind = reference to a variable '
     'defined in every pair of scopes from every scope; competing = reference-valued vs literal definition in every '
     'ordered pair of scopes; pairs = two variables / two sibling options in every pair of layers; typed = typed '
     'options fed from native values, text, references, chains. Each document is observed for every component '
     '(stage 0 with/without component layers, stage 1) on every platform {default, P, Q} through the entry points '
-    'concrete / conf-prim / conf-repl / experiment (quick: one load platform per document in rotation; thorough: '
-    'all). A case (document x entry point x load platform) is non-trivial when at least two layers (counting the '
+    'concrete / conf-prim / conf-repl / experiment (quick: one load platform per document in rotation and, for the '
+    'three largest families, one of the two package loaders per document; thorough: all, except one load platform '
+    'per loader for the partially-defined-reference shapes and the pair-subsets stratum). A case (document x entry point x load platform) is non-trivial when at least two layers (counting the '
     'built-in defaults) define the tracked item or a reference has to be substituted; distinct = distinct case.')
 ASSUMPTIONS = [
     'within the user-supplied layer a stage-scoped variable beats a global one (same global-then-stage order the '
@@ -99,15 +102,28 @@ def plan(family, idx, spec, thorough):
     """Which entry points / load platforms a document is pushed through."""
     yield 'concrete', 'default'
     conf = True
-    if family == 'opt-subsets' and not thorough and spec[2] not in ('lit', 'ref'):
+    if family == 'opt-subsets' and not thorough and spec[2] not in ('lit', 'ref', 'ref-rebound'):
         conf = False
     if conf:
         first = preferred_load(spec, idx)
-        for l in (G.PLATFORMS if thorough else (first,)):
-            yield 'conf-prim', l
         second = first if first != G.PLATFORMS[idx % 3] else G.PLATFORMS[(idx + 1) % 3]
-        for l in (G.PLATFORMS if thorough else (second,)):
-            yield 'conf-repl', l
+        prim = repl = True
+        if not thorough:
+            # quick tier: the three big families go through one of the two package loaders per document
+            if family == 'opt-subsets':
+                prim, repl = spec[2] == 'lit', spec[2] in ('ref', 'ref-rebound')
+            elif family in ('var-subsets', 'chain'):
+                prim = bin(idx).count('1') % 2 == 0
+                repl = not prim
+        every = thorough
+        if spec[0] == 'var-pair-subsets' or (family == 'opt-subsets' and spec[2] in ('ref-comp-only', 'ref-bp-only')):
+            every = False       # the bulkiest strata keep one load platform per loader in both tiers
+        if prim:
+            for l in (G.PLATFORMS if every else (first,)):
+                yield 'conf-prim', l
+        if repl:
+            for l in (G.PLATFORMS if every else (second,)):
+                yield 'conf-repl', l
     exp = False
     if spec[0] == 'var-subsets' and spec[2] == 1:
         exp = all(G.VAR_LAYERS[i] in CORE6 for i in range(len(G.VAR_LAYERS)) if spec[1] >> i & 1)
@@ -115,6 +131,9 @@ def plan(family, idx, spec, thorough):
         exp = all(l in CORE6 + ('none',) for l in spec[1:])
     elif spec[0] == 'typed':
         exp = spec[3] in ('c',) and spec[4] in ('ug', '-') and (thorough or 'false' in spec[2] or 'text' in spec[2])
+        # a migratable component needs a partner component (an Experiment level rule that is not C04's business)
+        if G.TYPED[spec[1]][0].endswith('isMigratable') and 'true' in spec[2]:
+            exp = False
     if exp:
         yield 'experiment', 'P'
         yield 'experiment', 'default'
@@ -221,6 +240,7 @@ def judge_doc(col, family, spec, doc, user, via, load, only=None):
         except HarnessError:
             raise
         except Exception as e:
+            msg = re.sub(r'-\d{4}-\d\d-\d\dT\d+\.\d+\.instance', '-<stamp>.instance', str(e).replace(d, '<scratch>'))
             err_here = [cid for cid in comp_ids if expected[(cid, load)][0] == 'error']
             err_any = [k for k, v in expected.items() if v[0] == 'error']
             if via != 'concrete' and err_here:
@@ -233,8 +253,8 @@ def judge_doc(col, family, spec, doc, user, via, load, only=None):
             col.outcome('%s|FAIL|load-error' % via)
             record(col, dict(base, comp=None, platform=load),
                    'loading a document in which every reference is defined failed through %s on platform %s: %s: %s'
-                   % (via, load, type(e).__name__, str(e)[:600]),
-                   {'exception': type(e).__name__, 'message': str(e)[:3000]},
+                   % (via, load, type(e).__name__, msg[:600]),
+                   {'exception': type(e).__name__, 'message': msg[:3000]},
                    '%s|load-error|%s' % (via, type(e).__name__))
             return
         for plat in plats:
@@ -316,7 +336,38 @@ def worker(col, item, tier, seed):
             col.sample({'family': family, 'spec': list(spec), 'doc': jsonable(doc), 'user': jsonable(user)})
 
 
+def oracle_selfcheck():
+    """Hand-computed cases for the reference resolver (a wrong oracle must stop the run, not produce verdicts)."""
+    doc = {'variables': {'default': {'global': {'v': 'dg', 'w': '%(v)s!'}, 'stages': {0: {'v': 'ds'}, 1: {'v': 'ds1'}}},
+                         'P': {'global': {'v': 'Pg'}, 'stages': {}}, 'Q': {'global': {}, 'stages': {0: {'v': 'Qs'}}}},
+           'blueprint': {'default': {'global': {'resourceRequest': {'numberThreads': '%(n)s'}}},
+                         'P': {'stages': {0: {'resourceRequest': {'numberThreads': 8}}}}},
+           'components': [{'name': 'A', 'stage': 0, 'command': {'executable': 'ls', 'arguments': '%(w)s'},
+                           'variables': {'n': '3'}, 'override': {'Q': {'variables': {'v': 'ovQ'}}}},
+                          {'name': 'B', 'stage': 1, 'command': {'executable': 'ls'}}]}
+    user = {'global': {'v': 'ug'}, 'stages': {1: {'v': 'us1'}}}
+    hand = [
+        (None, (0, 'A'), 'default', 'value', 'ds!', 3), (None, (0, 'A'), 'P', 'value', 'Pg!', 8),
+        (None, (0, 'A'), 'Q', 'value', 'ovQ!', 3), (user, (0, 'A'), 'P', 'value', 'ug!', 8),
+        (user, (0, 'A'), 'Q', 'value', 'ovQ!', 3), (None, (1, 'B'), 'P', 'error', None, None),
+    ]
+    for u, cid, plat, kind, args, threads in hand:
+        got = O.resolve(doc, u, cid, plat)
+        ok = got[0] == kind and (kind == 'error' or (got[1]['options']['command.arguments'] == args and
+                                                     got[1]['options']['resourceRequest.numberThreads'] == threads))
+        if not ok:
+            raise HarnessError('reference resolver self-check failed for %r %r %r: %r' % (u, cid, plat, got))
+    b = O.resolve(doc, user, (1, 'B'), 'default')
+    if b[0] != 'error':     # B inherits numberThreads: %(n)s from the blueprint but n is A's own variable
+        raise HarnessError('reference resolver self-check failed for the bystander: %r' % (b,))
+    doc['blueprint']['default']['global']['resourceRequest']['numberThreads'] = 2
+    b = O.resolve(doc, user, (1, 'B'), 'Q')
+    if b[0] != 'value' or b[1]['variables'] != {'v': 'us1', 'w': 'us1!'} or b[1]['options']['command.arguments'] != '':
+        raise HarnessError('reference resolver self-check failed for the bystander: %r' % (b,))
+
+
 def run(ctx):
+    oracle_selfcheck()
     items = []
     for family in G.FAMILY_ORDER:
         n = len(G.specs(family, ctx.thorough))
@@ -336,7 +387,6 @@ def replay(ctx, case):
 
 # ------------------------------------------------------------------------------------------------ known defects
 # Each selector tests the *case* (the input shape that triggers the defect) and the *shape of the wrong observation*.
-import re
 
 _OVERRIDE_LABEL = re.compile(r'stage(\d+)\.([A-Za-z0-9_-]+)\.override\.([A-Za-z0-9_-]+)\.')
 BOOL_BUILTIN_CONVERSION = ('workflowAttributes.isMigratable', 'workflowAttributes.isMigrated',
@@ -405,9 +455,10 @@ def _sel_foreign_override(f):
     return True
 
 
-def early_bound_variables(doc, user, cid, plat):
+def early_contexts(doc, user, cid, plat):
     """What the flattened (instance) document makes of the variables: global scopes are substituted among themselves
-    first, then the stage scopes (with the user variables) on top of them, and only then the component's own."""
+    first, then the stage scopes (with the user variables) on top of them, and only then the component's own.
+    Returns the three variable contexts (global, global+stage, final)."""
     layers = dict(O.variable_layers(doc, user, cid, plat))
 
     def pre(values, ctx):
@@ -435,16 +486,46 @@ def early_bound_variables(doc, user, cid, plat):
     ctx = dict(g)
     ctx.update(st)
     st = pre(st, ctx)
-    final = dict(g)
-    final.update(st)
+    gs = dict(g)
+    gs.update(st)
+    final = dict(gs)
     final.update(layers['component'])
     final.update(layers['component-override'])
-    return final
+    return g, gs, final
+
+
+def early_prediction(doc, user, cid, plat):
+    """('value', {'variables', 'options'}) as the early-binding defect would produce them."""
+    g, gs, final = early_contexts(doc, user, cid, plat)
+    pred = O.resolve(doc, user, cid, plat, _variables=final)
+    if pred[0] != 'value':
+        return pred
+    # blueprint layers are substituted with the scope they are written in before the component is looked at
+    ctx_of = {'default-global': g, 'platform-global': g, 'default-stage': gs, 'platform-stage': gs}
+    raw, src = {}, {}
+    for label, layer in O.option_layers(doc, cid, plat):
+        for k, v in layer.items():
+            raw[k] = v
+            src[k] = label
+    for p in list(pred[1]['options']):
+        if src.get(p) not in ctx_of:
+            continue
+
+        def one(x, ctx=ctx_of[src[p]]):
+            try:
+                return O.substitute(x, ctx, 'early option')
+            except O.Undefined:
+                return x
+        v = raw[p]
+        v = [one(x) for x in v] if isinstance(v, list) else one(v)
+        v = [O.substitute(x, final, 'late') for x in v] if isinstance(v, list) else O.substitute(v, final, 'late')
+        pred[1]['options'][p] = O.to_type(p, v)
+    return pred
 
 
 def _sel_early_binding(f):
-    """Flattened configuration only: a reference written in a global/stage scope is bound to the value its target
-    has in that scope, not to the value a higher layer (stage, user, component) gives the target."""
+    """Flattened configuration only: a reference written in a global/stage scope (variables or blueprint) is bound
+    to the value its target has in that scope, not to the value a higher layer (stage, user, component) gives it."""
     parts = f['sig'].split('|')
     case = f['case']
     if parts[0] not in ('conf-repl', 'experiment') or len(parts) < 2 or parts[1] not in ('var', 'opt'):
@@ -455,9 +536,8 @@ def _sel_early_binding(f):
     cid = (int(case['comp'][0]), case['comp'][1])
     try:
         late = O.resolve(case['doc'], case.get('user'), cid, case['platform'])
-        early = O.resolve(case['doc'], case.get('user'), cid, case['platform'],
-                          _variables=early_bound_variables(case['doc'], case.get('user'), cid, case['platform']))
-    except O.Grey:
+        early = early_prediction(case['doc'], case.get('user'), cid, case['platform'])
+    except (O.Grey, O.Undefined):
         return False
     if late[0] != 'value' or early[0] != 'value':
         return False
